@@ -29,7 +29,7 @@ def profile(name, **kw):
         callers=(1, 3), small=False, check_all_every=16, nontarget=True,
         tx=dict(edit=6, query=3, derive_edit=0, relabel=0, twin=0, pair=0, mutant=0,
                 enum=0, enant=0, react=0, persist=0, algebra=0, faults=0, flip=0,
-                isomers=0, symnum=0, wlpair=0, large=0, hubs=0, copies=0, dense=0, changeshare=0, known=0, build=1),
+                isomers=0, symnum=0, wlpair=0, large=0, hubs=0, copies=0, dense=0, changeshare=0, known=0, treepair=0, build=1),
         fault_rate=(0.0, 0.15),
     )
     tx = dict(base["tx"])
@@ -46,7 +46,7 @@ profile("C10", tx=dict(edit=3, query=1, derive_edit=8, relabel=1, react=1, persi
 profile("C11", tx=dict(edit=3, query=2, relabel=8, twin=1, derive_edit=1, algebra=1, large=0.06, build=1))
 profile("C01", tx=dict(edit=4, query=1, twin=8, relabel=1, derive_edit=1, large=0.08, hubs=0.2, copies=1, build=2), max_atoms=(1, 12))
 profile("C03", tx=dict(edit=4, query=2, twin=8, pair=1, large=0.08, hubs=0.2, copies=0.5, build=2), max_atoms=(1, 12))
-profile("C02", tx=dict(edit=4, pair=5, mutant=6, derive_edit=2, wlpair=5, build=2), small=True, max_atoms=(2, 8))
+profile("C02", tx=dict(edit=4, pair=5, mutant=6, derive_edit=2, wlpair=5, treepair=4, build=2), small=True, max_atoms=(2, 8))
 profile("C05", tx=dict(edit=3, enum=8, symnum=2, derive_edit=2, wlpair=4, copies=1, build=2), small=True, max_atoms=(2, 13),
         callers=(2, 4))
 profile("C06", tx=dict(edit=3, enant=6, derive_edit=2, build=2), small=True, max_atoms=(2, 7),
@@ -1437,6 +1437,61 @@ class Gen:
             yield dict(k="probe_pair", s1=slots[0], s2=slots[1])
         for x in slots:
             if x in self.w.slots:
+                yield dict(k="drop", s=x)
+
+    def tx_treepair(self):
+        """two trees / chains over two to four elements that differ by a local
+        rearrangement (neighbouring atoms exchange elements, a leaf moves):
+        colour refinement separates them only in its last rounds"""
+        rng = self.rng
+        if len(self.w.slots) + 2 > self.w.max_slots:
+            for s in self.graphs(unlocked=True)[:2]:
+                yield dict(k="drop", s=s)
+        kind = rng.choice(self.cfg["classes"])
+        n = rng.randint(5, 11)
+        els = rng.sample([6, 7, 8, 9, 16, 17], rng.choice((2, 3, 3, 4)))
+        seq = [rng.choice(els) for _ in range(n)]
+        bonds = [(i, i + 1) for i in range(n - 1)] if rng.random() < 0.6 else \
+            [(rng.randrange(0, i), i) for i in range(1, n)]
+        seq2, bonds2 = list(seq), list(bonds)
+        how = rng.choice(("swap", "swap", "leaf"))
+        if how == "swap":
+            cand = [(x, y) for x, y in bonds if seq[x] != seq[y]]
+            if not cand:
+                return
+            x, y = rng.choice(cand)
+            seq2[x], seq2[y] = seq2[y], seq2[x]
+        else:
+            deg = {i: 0 for i in range(n)}
+            for x, y in bonds:
+                deg[x] += 1
+                deg[y] += 1
+            leaves = [i for i in range(n) if deg[i] == 1]
+            leaf = rng.choice(leaves)
+            bonds2 = [b for b in bonds if leaf not in b]
+            others = [i for i in range(n) if i != leaf and (leaf, i) not in bonds and (i, leaf) not in bonds]
+            if not others:
+                return
+            bonds2.append((rng.choice(others), leaf))
+        ids = list(self.cfg["ids"])
+        while len(ids) < n:
+            ids.append(max(ids) + 1 + rng.randrange(3))
+        slots = []
+        for sq, bd in ((seq, bonds), (seq2, bonds2)):
+            perm = rng.sample(ids, n)
+            order = list(range(n))
+            rng.shuffle(order)
+            bl = list(bd)
+            rng.shuffle(bl)
+            s = self.slot_id()
+            slots.append(s)
+            yield dict(k="spec", dst=s, cls=kind, reserved=True, atoms=[[perm[i], sq[i]] for i in order],
+                       bonds=[[perm[x], perm[y], None] for x, y in bl])
+        if all(self.w.graph(x) is not None for x in slots):
+            a, b = slots if rng.random() < 0.5 else slots[::-1]
+            yield dict(k="probe_pair", s1=a, s2=b, variants=rng.choice((0, 0, 2)), seed=rng.randrange(2 ** 31))
+        for x in slots:
+            if x in self.w.slots and not self.w.slots[x].locks:
                 yield dict(k="drop", s=x)
 
     def tx_hubs(self):
